@@ -309,6 +309,10 @@ class Evaluator:
             return SBytes([Seg("raw", Lin.atom(("len", v.path)), ref=Ref(v.path))])
         if isinstance(v, TRef) and v.typ[0] == "opt" and v.typ[1][0] == "bytes":
             return SBytes([Seg("raw", Lin.atom(("len", v.path)), ref=Ref(v.path))])
+        if isinstance(v, CallVal):
+            return SBytes([Seg("raw", Lin.atom(("len", repr(v))), ref=Ref(repr(v)), call=v)])
+        if isinstance(v, TRef) and (v.typ[0] == "list" or (v.typ[0] == "opt" and v.typ[1][0] == "list")):
+            return SBytes([Seg("raw", Lin.atom(("len", f"join({v.path})")), ref=Ref(f"join({v.path})"))])
         if isinstance(v, DictMap) and v.table and all(isinstance(x, bytes) for x in v.table.values()):
             widths = {len(x) for x in v.table.values()}
             key = v.key
@@ -902,6 +906,8 @@ class Evaluator:
         return NotImplemented
 
     def join(self, v: t.Any, node: ast.AST) -> SBytes:
+        if isinstance(v, TRef) and (v.typ[0] == "list" or (v.typ[0] == "opt" and v.typ[1][0] == "list")):
+            return self.as_bytes(v, node)
         if isinstance(v, list):
             out = SBytes([])
             for item in v:
